@@ -120,6 +120,7 @@ class Kernel:
         self.gap_mean = sched.get("gap_mean", 50)
         self.trace_files = frozenset(trace_files)
         self.trace_opcodes = sched.get("opcodes", False)
+        self.handoff = bool(sched.get("handoff"))  # on lock release prefer a thread that was waiting for that lock
         self.delay_enabled = bool(sched.get("delay"))
         self.delay_target = None  # thread kind currently starved
         self.delay_left = 0
@@ -493,6 +494,25 @@ class Kernel:
         me.blocked = (pred, deadline, what, active)
         self._reschedule(me, can_stay=False)
         return pred() if pred is not None else False
+
+    def release_point(self, lockname):
+        """yield point at a lock release; with the hand-off bias the baton goes to a waiter of that lock."""
+        me = self.current
+        if me is None or self.aborting or me.no_preempt or not self.handoff:
+            return self.yield_point("release:" + lockname)
+        waiters = [t for t in self.threads if t is not me and t.alive and t.blocked is not None
+                   and t.blocked[2] in ("lock:" + lockname, "relock:" + lockname) and self._is_runnable(t)]
+        if not waiters or self.S.draw(2, p0=0.5) == 0:
+            return self.yield_point("release:" + lockname)
+        self.steps += 1
+        self.now += YIELD_COST
+        me.site = "release:" + lockname
+        me.blocked = None
+        waiters.sort(key=lambda t: t.last_run)
+        self._handoff(me, waiters[0])
+        me.sem.acquire()
+        if self.aborting:
+            raise SimAbort()
 
     def starve(self, kind, steps):
         """targeted delay: prefer threads other than `kind` for `steps` picks."""
